@@ -71,6 +71,34 @@ def run(ctx, report):
             report.check("INC", "%s/helper" % name, ok, "helper %s does not write seq" % name, "helper %s writes the sequence number" % name, fn=f.path, sp=f.span, config=cfg)
 
     # arithmetic census: no unchecked arithmetic on a u64 named seq anywhere
+    def seq_value_in(e, depth=0):
+        """the *value* of a seq field is an arithmetic operand of e (reached through
+        arithmetic, casts, copies and value-preserving conversions only: the
+        length of its encoding, say, is a different quantity)"""
+        if depth > 40:
+            return True
+        k = e.k
+        if k == "field":
+            if e.a[1] == "seq":
+                return True
+            return seq_value_in(e.a[0], depth + 1) if e.a[1] in ("0", "1") else False
+        if k in ("ref", "deref", "mutated"):
+            return seq_value_in(e.a[0], depth + 1)
+        if k == "cast":
+            return seq_value_in(e.a[1], depth + 1)
+        if k == "binop":
+            return seq_value_in(e.a[1], depth + 1) or seq_value_in(e.a[2], depth + 1)
+        if k == "unop":
+            return any(seq_value_in(x, depth + 1) for x in e.a[1:] if hasattr(x, "k"))
+        if k == "phi":
+            return any(seq_value_in(x, depth + 1) for x in e.a[0])
+        if k == "call":
+            n = e.a[0].name or ""
+            if n in ("clone", "into", "from", "try_into", "try_from", "unwrap", "unwrap_or", "expect", "to_owned", "min", "max") or n.startswith(("wrapping_", "saturating_", "overflowing_", "unchecked_", "checked_")):
+                return any(seq_value_in(x, depth + 1) for x in e.a[1])
+            return False
+        return False
+
     bad = []
     for f in ctx.facts.fns:
         an = None
@@ -81,13 +109,13 @@ def run(ctx, report):
                 if s.kind == "assign" and s.rv.kind == "binop" and s.rv.j["op"].startswith(("Add", "Sub", "Mul")):
                     an = an or ctx.an(f)
                     e = an.rvalue_expr(s.rv, b.idx, i)
-                    if any(x.k == "field" and x.a[1] == "seq" for x in e.walk()):
+                    if seq_value_in(e):
                         bad.append((f, s.sp, "binop " + s.rv.j["op"]))
             t = b.term
             if t.kind == "call" and t.callee and t.callee.name and t.callee.name.startswith(("wrapping_", "saturating_", "overflowing_", "unchecked_")):
                 an = an or ctx.an(f)
                 e = an.call_expr(t, b.idx)
-                if any(x.k == "field" and x.a[1] == "seq" for x in e.walk()):
+                if any(seq_value_in(x) for x in e.a[1]):
                     bad.append((f, t.sp, t.callee.name))
     for f, sp, what in bad:
         report.violate("NOWRAP", "%s/arith:%s" % (f.name or f.path, what), "unchecked arithmetic on the sequence number (%s)" % what, fn=f.path, sp=sp, config=cfg)
